@@ -14,6 +14,13 @@
 (*                        recency                                          *)
 (*   DropBroken           removing an unreadable entry is not an eviction  *)
 (*   FetchUnknownSize     a backend fetch of unknown size reserves nothing *)
+(*                                                                         *)
+(* With WithBackend = TRUE a local miss goes on to the proxy backend       *)
+(* (disk.go get, the part after availableOrTryProxy): reserve (in the      *)
+(* lock region of the lookup when that missed, in one of its own after a   *)
+(* hit that turned out unusable), ask the backend and create the file,     *)
+(* copy, commit (Unreserve + Add), clean up.  An upload hands its file to  *)
+(* the backend just before it commits.                                     *)
 (***************************************************************************)
 EXTENDS Lru
 
@@ -53,7 +60,11 @@ vars == <<lru, evcur, evstage, evqSize, files, nextFid, pc, loc, ops, nextCid, a
 
 NoLoc == [op |-> "none", key |-> None, item |-> [lsz |-> 0, dsz |-> 0], resv |-> 0, fid |-> None,
           e |-> None, cap |-> None, fd |-> None, res |-> "none", cid |-> None, gen0 |-> 0, live0 |-> FALSE,
-          mism |-> FALSE, unresv |-> FALSE, rmtmp |-> FALSE, known |-> TRUE, rcid |-> None, rkey |-> None]
+          mism |-> FALSE, unresv |-> FALSE, rmtmp |-> FALSE, known |-> TRUE, rcid |-> None, rkey |-> None,
+          bitem |-> [lsz |-> 0, dsz |-> 0], bcid |-> None]
+
+\* what the backend holds for a key: None or [cid, item]
+NoObj == [cid |-> None, item |-> [lsz |-> 0, dsz |-> 0]]
 
 RoundedItems == {[lsz |-> i.lsz, dsz |-> i.dsz] : i \in Items}
 
@@ -84,7 +95,7 @@ Init ==
   /\ loc = [p \in Procs |-> NoLoc]
   /\ ops = [p \in Procs |-> MaxOps]
   /\ acked = [k \in Keys |-> None]
-  /\ backend = [k \in Keys |-> None]
+  /\ backend = [k \in Keys |-> NoObj]
   /\ crashed = 0
   /\ now = 1
   /\ IF CorruptInit
@@ -127,7 +138,27 @@ StartContains(p) ==
 
 Finish(p, res) ==
   /\ pc' = [pc EXCEPT ![p] = "idle"]
-  /\ loc' = [loc EXCEPT ![p] = [NoLoc EXCEPT !.res = res, !.op = loc[p].op, !.key = loc[p].key]]
+  /\ loc' = [loc EXCEPT ![p] = [NoLoc EXCEPT !.res = res, !.op = loc[p].op, !.key = loc[p].key,
+                                            !.rcid = IF res = "hit" THEN loc[p].rcid ELSE None,
+                                            !.rkey = IF res = "hit" THEN loc[p].rkey ELSE None]]
+
+\* a lookup that found nothing usable: without a backend that is a miss; with one the request goes on
+\* to the backend - reserving first if it knows the size (locked = the index lock is still held, so the
+\* reservation happens in this very step)
+ToBackend(p, L, locked, evq0) ==
+  IF ~WithBackend THEN /\ lru' = L /\ Finish(p, "miss") /\ evqSize' = evq0 /\ UNCHANGED live
+  ELSE IF ~loc[p].known
+       THEN /\ lru' = L /\ pc' = [pc EXCEPT ![p] = "get_proxy"] /\ evqSize' = evq0 /\ UNCHANGED <<loc, live>>
+       ELSE IF ~locked
+            THEN /\ lru' = L /\ pc' = [pc EXCEPT ![p] = "get_prereserve"] /\ evqSize' = evq0 /\ UNCHANGED <<loc, live>>
+            ELSE LET r == Reserve(L, loc[p].item.lsz, evq0) IN
+                 /\ lru' = r.L
+                 /\ evqSize' = evq0 + QueuedNow(L, r.L)
+                 /\ live' = LiveAfterEvict(L, r.L)
+                 /\ IF r.code = 0
+                    THEN /\ pc' = [pc EXCEPT ![p] = "get_proxy"]
+                         /\ loc' = [loc EXCEPT ![p].resv = loc[p].item.lsz, ![p].unresv = TRUE]
+                    ELSE Finish(p, IF r.code = 507 THEN "refused507" ELSE "error")
 
 FinishHit(p, cid, key) ==
   /\ pc' = [pc EXCEPT ![p] = "idle"]
@@ -195,7 +226,8 @@ PutCommit(p) ==
                   /\ live' = LiveAfterEvict(u.L, a.L)
                   /\ UNCHANGED acked /\ NoTouch
           /\ pc' = [pc EXCEPT ![p] = "put_cleanup"]
-  /\ UNCHANGED <<evcur, evstage, files, nextFid, ops, nextCid, backend, crashed>>
+  /\ backend' = IF WithBackend THEN [backend EXCEPT ![loc[p].key] = [cid |-> loc[p].cid, item |-> loc[p].item]] ELSE backend
+  /\ UNCHANGED <<evcur, evstage, files, nextFid, ops, nextCid, crashed>>
 
 \* deferred cleanup, step 1 (no lock): remove the temp file if not committed
 PutCleanup(p) ==
@@ -224,17 +256,17 @@ SizeMismatch(p, ent) == loc[p].known /\ loc[p].item.lsz # ent.lsz
 GetLookup(p) ==
   /\ pc[p] = "get_lookup"
   /\ LET r == GetItem(lru, loc[p].key)  k == loc[p].key IN
-     /\ lru' = r.L
-     /\ IF r.hit
-        THEN LET ent == r.L.elems[r.e] IN
-             /\ Touch(k)    \* TouchOnSizeMismatch: recency is refreshed whatever the size
-             /\ IF SizeMismatch(p, ent)
-                THEN Finish(p, "miss")
-                ELSE /\ pc' = [pc EXCEPT ![p] = "get_open"]
-                     /\ loc' = [loc EXCEPT ![p].e = r.e, ![p].cap = ent,
-                                           ![p].gen0 = live[k].gen, ![p].live0 = live[k].on]
-        ELSE /\ NoTouch /\ Finish(p, "miss")
-  /\ UNCHANGED <<evqSize, live>>
+     IF r.hit
+     THEN LET ent == r.L.elems[r.e] IN
+          /\ Touch(k)    \* TouchOnSizeMismatch: recency is refreshed whatever the size
+          /\ IF SizeMismatch(p, ent)
+             THEN ToBackend(p, r.L, FALSE, evqSize)    \* the lock was released after the lookup
+             ELSE /\ lru' = r.L
+                  /\ pc' = [pc EXCEPT ![p] = "get_open"]
+                  /\ loc' = [loc EXCEPT ![p].e = r.e, ![p].cap = ent,
+                                        ![p].gen0 = live[k].gen, ![p].live0 = live[k].on]
+                  /\ UNCHANGED <<evqSize, live>>
+     ELSE /\ NoTouch /\ ToBackend(p, r.L, TRUE, evqSize)
   /\ UNCHANGED <<evcur, evstage, files, nextFid, ops, nextCid, acked, backend, crashed>>
 
 \* os.Open outside the lock: the descriptor pins whatever the file is now
@@ -257,12 +289,11 @@ GetSlow(p) ==
              THEN /\ lru' = r.L
                   /\ loc' = [loc EXCEPT ![p].e = r.e, ![p].cap = ent, ![p].fd = files[ent.rnd]]
                   /\ pc' = [pc EXCEPT ![p] = "get_header"]
-                  /\ UNCHANGED evqSize
+                  /\ UNCHANGED <<evqSize, live>>
              ELSE LET d == RemoveElement(r.L, r.e) IN   \* DropBroken
-                  /\ lru' = d /\ evqSize' = evqSize + QueuedNow(r.L, d)
-                  /\ Finish(p, "miss")
-     ELSE /\ lru' = r.L /\ NoTouch /\ UNCHANGED evqSize /\ Finish(p, "miss")
-  /\ UNCHANGED <<evcur, evstage, files, nextFid, ops, nextCid, acked, live, backend, crashed>>
+                  ToBackend(p, d, FALSE, evqSize + QueuedNow(r.L, d))
+     ELSE /\ NoTouch /\ ToBackend(p, r.L, FALSE, evqSize)
+  /\ UNCHANGED <<evcur, evstage, files, nextFid, ops, nextCid, acked, backend, crashed>>
 
 \* header / size validation through the descriptor (no lock)
 GetHeader(p) ==
@@ -285,10 +316,71 @@ GetDrop(p) ==
          \* still the indexed element for the key, still holding the examined value
          still == k \in DOMAIN lru.cmap /\ lru.cmap[k] = e /\ lru.elems[e] = loc[p].cap
          d == IF StaleFix /\ ~still THEN [lru EXCEPT !.vict = <<>>] ELSE RemoveElement(lru, e) IN
-     /\ lru' = d /\ evqSize' = evqSize + QueuedNow(lru, d)
-  /\ Finish(p, "miss")
+     ToBackend(p, d, FALSE, evqSize + QueuedNow(lru, d))
   /\ NoTouch
-  /\ UNCHANGED <<evcur, evstage, files, nextFid, ops, nextCid, acked, live, backend, crashed>>
+  /\ UNCHANGED <<evcur, evstage, files, nextFid, ops, nextCid, acked, backend, crashed>>
+
+-----------------------------------------------------------------------------
+\* The fetch from the backend (disk.go get, after availableOrTryProxy)
+
+\* lock region of its own: Reserve(size) after a hit that turned out unusable
+GetPrereserve(p) ==
+  /\ pc[p] = "get_prereserve"
+  /\ LET r == Reserve(lru, loc[p].item.lsz, evqSize) IN
+     /\ lru' = r.L
+     /\ evqSize' = evqSize + QueuedNow(lru, r.L)
+     /\ live' = LiveAfterEvict(lru, r.L)
+     /\ IF r.code = 0
+        THEN /\ pc' = [pc EXCEPT ![p] = "get_proxy"]
+             /\ loc' = [loc EXCEPT ![p].resv = loc[p].item.lsz, ![p].unresv = TRUE]
+        ELSE Finish(p, IF r.code = 507 THEN "refused507" ELSE "error")
+  /\ NoTouch
+  /\ UNCHANGED <<evcur, evstage, files, nextFid, ops, nextCid, acked, backend, crashed>>
+
+\* proxy.Get and tfc.Create: the backend is asked; if it has the entry (in the size asked for) the file appears
+GetProxy(p) ==
+  /\ pc[p] = "get_proxy"
+  /\ LET b == backend[loc[p].key] IN
+     IF b.cid = None \/ (loc[p].known /\ b.item.lsz # loc[p].item.lsz)
+     THEN /\ pc' = [pc EXCEPT ![p] = "get_cleanup"]
+          /\ loc' = [loc EXCEPT ![p].res = "miss"]
+          /\ UNCHANGED <<files, nextFid>>
+     ELSE /\ files' = (nextFid :> [key |-> loc[p].key, state |-> "created", cid |-> b.cid, lsz |-> b.item.lsz, dsz |-> 0]) @@ files
+          /\ loc' = [loc EXCEPT ![p].fid = nextFid, ![p].rmtmp = TRUE, ![p].bitem = b.item, ![p].bcid = b.cid]
+          /\ nextFid' = nextFid + 1
+          /\ pc' = [pc EXCEPT ![p] = "get_fetch"]
+  /\ UNCHANGED <<lru, evcur, evstage, evqSize, ops, nextCid, acked, live, clock, now, backend, crashed>>
+
+\* io.Copy: everything arrives, or the stream fails and leaves a partial file
+GetFetch(p) ==
+  /\ pc[p] = "get_fetch"
+  /\ \/ /\ files' = [files EXCEPT ![loc[p].fid].state = "complete", ![loc[p].fid].dsz = loc[p].bitem.dsz]
+        /\ pc' = [pc EXCEPT ![p] = "get_commit"]
+        /\ UNCHANGED loc
+     \/ /\ files' = [files EXCEPT ![loc[p].fid].state = "partial"]
+        /\ pc' = [pc EXCEPT ![p] = "get_cleanup"]
+        /\ loc' = [loc EXCEPT ![p].res = "error"]
+  /\ UNCHANGED <<lru, evcur, evstage, evqSize, nextFid, ops, nextCid, acked, live, clock, now, backend, crashed>>
+
+\* commit: Unreserve (if something was reserved) + Add, as for an upload
+GetCommit(p) ==
+  /\ pc[p] = "get_commit"
+  /\ LET u == Unreserve(lru, loc[p].resv) IN
+     IF ~u.ok
+     THEN /\ lru' = u.L /\ loc' = [loc EXCEPT ![p].res = "error"]
+          /\ UNCHANGED <<evqSize, live>> /\ NoTouch
+     ELSE LET a == AddItem(u.L, loc[p].key, FidEntry(loc[p].key, loc[p].bitem, loc[p].fid)) IN
+          /\ lru' = a.L
+          /\ evqSize' = evqSize + QueuedNow(u.L, a.L)
+          /\ live' = LiveAfterEvict(u.L, a.L)
+          /\ IF a.ok
+             THEN /\ loc' = [loc EXCEPT ![p].resv = 0, ![p].unresv = FALSE, ![p].rmtmp = FALSE, ![p].res = "hit",
+                                       ![p].rcid = loc[p].bcid, ![p].rkey = loc[p].key]
+                  /\ Touch(loc[p].key)
+             ELSE /\ loc' = [loc EXCEPT ![p].resv = 0, ![p].unresv = FALSE, ![p].res = "error"]
+                  /\ NoTouch
+  /\ pc' = [pc EXCEPT ![p] = "get_cleanup"]
+  /\ UNCHANGED <<evcur, evstage, files, nextFid, ops, nextCid, acked, backend, crashed>>
 
 -----------------------------------------------------------------------------
 \* Contains (one lock region)
@@ -297,7 +389,7 @@ ContainsLookup(p) ==
   /\ LET r == GetItem(lru, loc[p].key) IN
      /\ lru' = r.L
      /\ IF r.hit THEN Touch(loc[p].key) ELSE NoTouch
-     /\ Finish(p, IF r.hit THEN "present" ELSE "absent")
+     /\ Finish(p, IF r.hit \/ (WithBackend /\ backend[loc[p].key].cid # None) THEN "present" ELSE "absent")
   /\ UNCHANGED <<evcur, evstage, evqSize, files, nextFid, ops, nextCid, acked, live, backend, crashed>>
 
 -----------------------------------------------------------------------------
@@ -327,6 +419,7 @@ Request(p) ==
   \/ StartPut(p) \/ StartGet(p) \/ StartContains(p)
   \/ PutReserve(p) \/ PutCreate(p) \/ PutWrite(p) \/ PutCommit(p) \/ PutCleanup(p) \/ ReqUnreserve(p)
   \/ GetLookup(p) \/ GetOpen(p) \/ GetSlow(p) \/ GetHeader(p) \/ GetDrop(p)
+  \/ GetPrereserve(p) \/ GetProxy(p) \/ GetFetch(p) \/ GetCommit(p)
   \/ ContainsLookup(p)
 
 Next == (\E p \in Procs : Request(p)) \/ Evictor
